@@ -40,6 +40,9 @@ impl<'ctx> TryFrom<&Amount<'ctx>> for SingleAmount<'ctx> {
     type Error = EvalError;
 
     fn try_from(value: &Amount<'ctx>) -> Result<Self, Self::Error> {
+        if value.values.len() > 1 {
+            return Err(EvalError::SingleAmountRequired);
+        }
         let (commodity, value) = value
             .values
             .iter()
